@@ -414,10 +414,12 @@ StartRun(S, e) ==
             !.hist = Append(@, <<"run", e>>)]
 
 \* put_records of everything reachable from the executions: no CallSubtreeTask rows, no Evaluation
-\* rows, only values referenced by transferred records
+\* rows, only the tasks of transferred jobs and call nodes (a task recorded only for the subtree rows of
+\* a node -- children without provenance -- is not reachable) and the values transferred records refer to
 Imported(db) ==
-  LET vals == {n[3] : n \in db.Node} \cup {a[2] : a \in db.Arg} \cup db.Task IN
-  [db EXCEPT !.Sub = {}, !.Eval = {}, !.Value = @ \cap vals]
+  LET tasks == db.Task \cap ({j[2] : j \in db.Job} \cup {n[1] : n \in db.Node})
+      vals == {n[3] : n \in db.Node} \cup {a[2] : a \in db.Arg} \cup tasks IN
+  [db EXCEPT !.Sub = {}, !.Eval = {}, !.Task = tasks, !.Value = @ \cap vals]
 Import(S) == [S EXCEPT !.db = Imported(S.db), !.imported = TRUE, !.hist = Append(@, <<"import", 0>>)]
 
 (***************************************************************************)
